@@ -279,6 +279,61 @@ pub fn ser_shape_enum(nd: &mut Nd) {
     diff::<E, 17>(nd, &e);
 }
 
+#[derive(Debug, Serialize)]
+pub struct Empty0 {}
+#[derive(Debug, Serialize)]
+pub struct EmptyT();
+#[derive(Debug, Serialize)]
+pub enum E0 {
+    S0 {},
+    T0(),
+    /// a struct variant whose fields may all be skipped: serde passes the number of fields that
+    /// are actually written
+    Opt {
+        #[serde(skip_serializing_if = "Option::is_none")]
+        a: Option<u8>,
+        #[serde(skip_serializing_if = "Option::is_none")]
+        b: Option<bool>,
+    },
+}
+#[derive(Debug, Serialize)]
+pub struct SkipAll {
+    #[serde(skip_serializing_if = "Option::is_none")]
+    pub a: Option<u8>,
+    #[serde(skip_serializing_if = "Option::is_none")]
+    pub b: Option<bool>,
+}
+
+/// Containers with nothing in them (empty struct / tuple struct / struct variant / tuple variant,
+/// a struct or struct variant all of whose fields are skipped), alone and followed by a sibling
+/// inside an enclosing tuple (so that a missing closing bracket shows).
+pub fn ser_shape_empty(nd: &mut Nd) {
+    let a = if nd.bool() { Some(nd.u8()) } else { None };
+    let b = if nd.bool() { Some(nd.bool()) } else { None };
+    let tail = nd.bool();
+    match nd.below(6) {
+        0 => {
+            diff::<(Empty0, bool), 12>(nd, &(Empty0 {}, tail));
+        }
+        1 => {
+            diff::<(EmptyT, bool), 12>(nd, &(EmptyT(), tail));
+        }
+        2 => {
+            diff::<(E0, bool), 19>(nd, &(E0::S0 {}, tail));
+        }
+        3 => {
+            diff::<(E0, bool), 19>(nd, &(E0::T0(), tail));
+        }
+        4 => {
+            diff::<(E0, bool), 40>(nd, &(E0::Opt { a, b }, tail));
+        }
+        _ => {
+            diff::<(SkipAll, bool), 32>(nd, &(SkipAll { a, b }, tail));
+        }
+    }
+    cover!(nd, a.is_none() && b.is_none(), "every optional field skipped");
+}
+
 /// Sequences of symbolic length 0..=2 (slice of `u8` → `[1,2]`).
 pub fn ser_shape_seq(nd: &mut Nd) {
     let arr = [nd.u8(), nd.u8()];
